@@ -42,10 +42,15 @@ var (
 	fWorkers = flag.Int("workers", 0, "override worker count")
 	fVariant = flag.String("variant", "", "override genesis variants (comma separated; debugging)")
 	fProfile = flag.String("profile", "", "override the workload profile with another property's (debugging)")
+	fDumpWit = flag.Bool("dump-witnesses", false, "print the concrete messages of the deterministic known-finding witnesses and exit")
 )
 
 func main() {
 	flag.Parse()
+	if *fDumpWit {
+		dumpWitnesses()
+		return
+	}
 	if *fProp == "" {
 		fmt.Println("need -prop")
 		os.Exit(2)
@@ -579,4 +584,35 @@ func doReplay() int {
 		return 1
 	}
 	return 0
+}
+
+// dumpWitnesses prints the concrete messages of the bootstrap steps that are the deterministic
+// witnesses of the known findings (F-C09a: bootstrap/batch-equal-dates, F-C09b: the public resolver).
+func dumpWitnesses() {
+	rep := &eng.Reporter{ReplayDir: os.TempDir()}
+	app := chain.NewApp(chain.Options{})
+	e := eng.New(app, rep, false)
+	rec := &witnessRec{}
+	e.Monitors = []eng.Monitor{rec}
+	if err := e.Init(gen.Genesis(app, "default"), gen.GenesisTime); err != nil {
+		fmt.Println(err)
+		return
+	}
+	e.NextBlock(gen.GenesisTime.Add(5 * time.Second))
+	g := gen.New(1, gen.ProfileFor("C09"))
+	g.Observe(e.Cur, e.App.Header.Time)
+	g.Bootstrap(e, func() { g.Observe(e.Cur, e.App.Header.Time) })
+	bz, _ := json.MarshalIndent(rec.out, "", " ")
+	fmt.Println(string(bz))
+}
+
+type witnessRec struct {
+	mon.Base
+	out []interface{}
+}
+
+func (w *witnessRec) AfterTx(e *eng.Engine, t *eng.TxRec) {
+	if strings.Contains(t.Tag, "equal-dates") || strings.Contains(t.Tag, "resolver") {
+		w.out = append(w.out, map[string]interface{}{"tag": t.Tag, "accepted": t.OK, "msg": eng.MsgJSON(e.App.Cdc, t.Msgs[0])})
+	}
 }
